@@ -221,7 +221,7 @@ def strip(line):
 
 
 def main(chk):
-    chk.prove(["c_group"])
+    chk.prove(["c_group", "c_listops"])
     chk.lemmas(lemmas())
     n = 4 if chk.tier == "quick" else 5
     t0 = time.time()
